@@ -3,10 +3,12 @@ CONSTANTS
   ReqV4 = {"f1"}
   ReqV6 = {"s1"}
   ReqDual = {"d1", "d2"}
-  Reloads = {"m1", "m2", "m3"}
-  ToB = {"m1", "m3"}
+  Reloads = {"m1", "m2", "m3", "m4"}
+  ToB = {"m1", "m4"}
+  Bad = {"m2"}
+  ReloadOrder = "load-first"
   Protocol = "single"
 VIEW TraceView
-INVARIANTS WholeGeneration LockBalance MutualExclusion
+INVARIANTS WholeGeneration LockBalance MutualExclusion FailedReloadHoldsNothing
 POSTCONDITION Post
 CHECK_DEADLOCK FALSE
